@@ -569,6 +569,14 @@ func runStaleElementState(p *Prog, r *Report) {
 								first = x.Init
 							} else if x.Tag != nil {
 								first = x.Tag
+							} else {
+								// tagless switch: control starts at the first case expression
+								for _, c := range x.Body.List {
+									if cc, ok := c.(*ast.CaseClause); ok && len(cc.List) > 0 {
+										first = cc.List[0]
+										break
+									}
+								}
 							}
 						case *ast.BlockStmt:
 							if len(x.List) > 0 {
